@@ -1,3 +1,4 @@
+import GbVerif.Spec.Bits
 /-
 Reference composition of a DMG frame, written from the Game Boy definition (Pan Docs: "LCD
 Control", "Tile Data", "Tile Maps", "OAM", "Palettes", "Scrolling") and the text of property
@@ -29,9 +30,6 @@ deriving Repr, DecidableEq
 abbrev Mem := Nat → Nat
 
 def lcdcBit (r : Regs) (k : Nat) : Bool := r.lcdc.testBit k
-
-/-- value (0/1) of bit `k` of a byte -/
-def bit (v k : Nat) : Nat := v / 2 ^ k % 2
 
 /-- 2bpp tile data: colour index of the pixel in column `col` (0 = leftmost) of the tile row
 whose two bytes are at `a` (low bit plane) and `a + 1` (high bit plane); bit 7 is the leftmost pixel -/
@@ -100,14 +98,17 @@ def objColour (r : Regs) (vram oam : Mem) (i x ly : Nat) : Nat :=
     tileRowColour vram (tile * 16 + 2 * (row % 8)) col
   else 0
 
-/-- among the candidates (in OAM order) with an opaque pixel at (x, ly): lowest X wins,
-ties go to the lowest OAM index -/
+/-- object `i` beats object `j` at a pixel both cover with an opaque colour: lower X, or equal X
+and lower (or the same) OAM index -/
+def beats (oam : Mem) (i j : Nat) : Bool :=
+  decide (objX oam i < objX oam j) || (decide (objX oam i = objX oam j) && decide (i ≤ j))
+
+/-- the object shown at (x, ly): the candidate with an opaque pixel there that beats every other
+candidate with an opaque pixel there (lowest X first, then lowest OAM index) -/
 def winnerOf (r : Regs) (vram oam : Mem) (sel : List Nat) (x ly : Nat) : Option Nat :=
-  sel.foldl (fun best i =>
-    if objColour r vram oam i x ly = 0 then best
-    else match best with
-      | none => some i
-      | some j => if objX oam i < objX oam j then some i else some j) none
+  sel.find? fun i =>
+    objColour r vram oam i x ly != 0 &&
+    sel.all fun j => objColour r vram oam j x ly == 0 || beats oam i j
 
 /-- DMG shades as the emulator's frame buffer encodes them: 0 → 255 (white) … 3 → 0 (black) -/
 def shadeOf (s : Nat) : Nat :=
